@@ -91,7 +91,7 @@ func witnessCorrelated(ls []loginValues) (bool, string) {
 	for i, l := range ls {
 		pub := []string{l.state, l.nonce}
 		for _, p := range pub {
-			if p != "" && (strings.Contains(l.sid, p) || strings.Contains(p, l.sid[:16])) {
+			if p != "" && len(l.sid) >= 16 && (strings.Contains(l.sid, p) || strings.Contains(p, l.sid[:16])) {
 				return true, "sid-contains-public-value"
 			}
 		}
@@ -157,10 +157,15 @@ func witnessShape(ls []loginValues) (bool, string) {
 			posChars[i][l.sid[i]] = true
 		}
 	}
-	for i := 0; i < 32; i++ {
-		if len(ls) >= 2000 && len(posChars[i]) < 16 {
-			return true, fmt.Sprintf("position-%d-takes-only-%d-values", i, len(posChars[i]))
+	// enough positions must vary widely (fixed separators or version characters, as in a UUID, are fine)
+	varying := 0
+	for i := 0; i < 64; i++ {
+		if len(posChars[i]) >= 12 {
+			varying++
 		}
+	}
+	if len(ls) >= 2000 && varying < 24 {
+		return true, fmt.Sprintf("only-%d-positions-of-the-session-id-vary", varying)
 	}
 	return false, ""
 }
